@@ -27,6 +27,7 @@ import . "github.com/pbenner/autodiff/logarithmetic"
 
 import . "github.com/pbenner/autodiff"
 import . "github.com/pbenner/threadpool"
+import   "github.com/pbenner/autodiff/verifhook"
 
 /* -------------------------------------------------------------------------- */
 
@@ -137,6 +138,8 @@ func (obj *GeometricEstimator) Estimate(gamma ConstVector, p ThreadPool) error {
   //////////////////////////////////////////////////////////////////////////////
   if gamma == nil {
     if err := p.AddRangeJob(0, x.Dim(), g, func(i int, p ThreadPool, erf func() error) error {
+      verifhook.Yield("scalarEstimator.geometric.job")
+      verifhook.Event("scalarEstimator.geometric", i, p.GetThreadId())
       obj.NewObservation(x.ConstAt(i), nil, p)
       return nil
     }); err != nil {
@@ -144,12 +147,15 @@ func (obj *GeometricEstimator) Estimate(gamma ConstVector, p ThreadPool) error {
     }
   } else {
     if err := p.AddRangeJob(0, x.Dim(), g, func(i int, p ThreadPool, erf func() error) error {
+      verifhook.Yield("scalarEstimator.geometric.job")
+      verifhook.Event("scalarEstimator.geometric", i, p.GetThreadId())
       obj.NewObservation(x.ConstAt(i), gamma.ConstAt(i), p)
       return nil
     }); err != nil {
       return err
     }
   }
+  verifhook.Yield("scalarEstimator.geometric.queued")
   if err := p.Wait(g); err != nil {
     return err
   }
